@@ -33,6 +33,22 @@ CHECKS = {
          "other",
          "Decides each link of the chain that makes a flag suppress exactly one class, for all configurations: one negation, unconditional and independent switches, the getter's service holds exactly the matching validator, that validator can only report failed lookups of its own dependency field, no non-switchable validator reports a missing name, an inactive step is a no-op returning nil, nothing else is switchable, validators do not mutate the output. Output identity under flags follows; it is not executed.",
          "DESIGN.md §4 C16"),
+ "C01": ("abstract instantiation of the template ASTs over a covering set of data shapes (own interpreter, never text/template.Execute) and go/types checking of every instantiated file against the pinned runtime; SSA rules for the format gate; derivation of the rejected getter set vs the runtime's method set",
+         "other",
+         "Decides compile-ability of the generated code for all branch combinations of the six templates (pairwise-covering set per run, full 15k-shape product in the thorough tier) x all argument/parameter code forms x YAML scalar kinds x both modes, with go/types as oracle; init() assertion via types.Implements; format gate is last and unconditional; getter collisions and duplicate getters are rejected. User symbols are a fixture universe; formatter idempotence is trusted.",
+         "DESIGN.md §4 C01"),
+ "C13": ("method sets and signatures of the generated container type read from the type-checked skeletons; AST pairing of getter bodies with their service; SSA guards of the must-getter rejection; constant defaults",
+         "other",
+         "Decides the getter API contract for every instantiated combination of getter x type form x must flag in both modes: exact method set, exact signatures, each getter calls Get/GetInContext of its own service and converts via copier.Copy, Must* wrap their own getter and panic; collisions and duplicates are rejected; defaults are the documented constants. The full 3x3 must-getter truth table is only partially decided (dependencies, error guards, no-getter case).",
+         "DESIGN.md §4 C13"),
+ "C17": ("pairwise comparison of normal and stub instantiations of the same valuation on go/types objects (signatures, method sets), object-kind scan of user-package uses in the stub, build-constraint evaluation, raw-data print lint over the template trace, wiring/SSA reachability of the stub flag",
+         "other",
+         "Decides stub parity for every instantiated valuation: same package/type/constructor/getter signatures, stub compiles while using user packages as types only, bodies are panic(\"stub\"), constraint requires the gontainerstub tag; the flag reaches only the template builder, so validation and compilation cannot depend on it; interface{}-typed user data is printed only via export, so mode-only comment blocks cannot flip the formatter's verdict.",
+         "DESIGN.md §4 C17"),
+ "C20": ("effect analysis of the instantiated generated code (typed AST): package-level variables, struct fields of the container, assignment targets of every function and closure; scope-setter emission",
+         "other",
+         "Schedules and the runtime's locking are out of reach of static analysis of this repository. Decided instead, for every instantiated valuation: the generated code declares no package variable, the container struct holds only the embedded runtime container, no function or closure writes to captured/receiver/shared storage, and default-scope services are registered with SetScopeDefault. Hence the generated code adds no shared mutable state and any race would be inside gontainer-helpers.",
+         "DESIGN.md §4 C20"),
 }
 NOT_YET = "check not built yet in this session (design in DESIGN.md §4); will be claimed once its rules run on /repo"
 
